@@ -350,6 +350,11 @@ def render_file(path, module, moddir, ctx):
         info.dropped.append({'file': rel, 'what': kind, 'bytes': b - a})
         edits.append(Edit(a, b, ''))
 
+    # private constants become `pub` in the verified text (visibility only; needed when a derived - public, ghost -
+    # denotation mentions them)
+    for pos in sc.private_consts:
+        if not any(a <= pos < b for a, b in sc.drop_spans):
+            edits.append(Edit(pos, pos, 'pub '))
     for d in sc.derives:
         inside_drop = any(a <= d.start < b for a, b in sc.drop_spans)
         if inside_drop:
